@@ -25,7 +25,7 @@ def plan(prop, tier):
                            "any exception class is accepted for unfitted / foreign type / other timezone / bad aggregation; only the gate's class is fixed"])
     if prop == "C01":
         if q:
-            fam = fam + [("hourly", "solar_tf"), ("daily", "custommaps")]
+            fam = fam + [("hourly", "solar_tf"), ("daily", "custommaps"), ("caltrack", "caltrack")]      # C01 names the CalTRACK family
         return dict(scen=[("store", fam)] + ([] if q else [("free", fam)]), per=(5 if q else 16),
                     rule="histories fit/sweep/save/(restart)/load/sweep/resave per family and profile; distinct = distinct (abstract history, family, profile)",
                     extra=["document equality is JSON-value equality", "the formula clause of C01 is decided by the DailyCurve module (C11/C12 checks), not here"])
